@@ -6,7 +6,7 @@
    The remaining boxes of an init segment are constants of the constructors (their round trip is part of the
    small-scope theorem) or have their own round-trip theorems (elng, stpp, avcC/hvcC records). *)
 From V.lib Require Import Base.
-From V.c01 Require Import C01Codec C01Model.
+From V.c19 Require Import C19BoxCodec C19BoxModel.
 
 Lemma rd_be n v r : v < 256 ^ N.of_nat n -> rd n (be_enc n v ++ r) = Ok (v, r).
 Proof.
